@@ -45,6 +45,12 @@ pub fn base_downlinks(region: &str) -> Vec<Frame> {
     if !fixed && region == "EU868" {
         v.push(dl(vec![0x0A, 0x00, 0x78, 0x7D, 0x84], None, vec![], false));
     }
+    if crate::refregion::max_rx1_offset(region) == 7 {
+        // the largest RX1 data-rate offset (with a high uplink rate RX1 then falls back to other parameters)
+        let (f2, dr2) = crate::refregion::rx2_default(region);
+        let fb = crate::cmds::freq_bytes(f2);
+        v.push(dl(vec![0x05, 0x70 | dr2, fb[0], fb[1], fb[2]], None, vec![], false));
+    }
     v
 }
 
@@ -702,6 +708,12 @@ pub fn run(tier: Tier, replay: Option<&str>) {
                 }
             }
         }
+    }
+    // a region whose RX1 table reaches rates the stack does not implement, at its highest uplink rate
+    for front in ["nb", "async"] {
+        let mut d = DevCfg::abp("IN865");
+        d.dr = Some(5);
+        runs.push(RunCfg { front: front.into(), class_c: false, bound: 1, dev: d });
     }
     let mut states = 0u64;
     let mut transitions = 0u64;
